@@ -9,6 +9,9 @@ AST (plain tuples / dicts):
   op   = ("then", attach, fn) | ("tofuture",) | ("onnull",)
   attach = "inline" | "inherit" | ("on", exec)            exec = "i" | "s" | "m0" | "m1" | "m2"
   fn   = {"id": n, "par": P, "ret": R, "beh": beh}        beh = ("throw"|"ret"|"resval"|"reserr"|"resexc", k) | ("async", prog)
+                                                          | ("shared",)  (ret SI/SV, only inside a share case)
+  share case = {"extra": n, "src": prog (a SharedFuture), "p1": prog, "p2": prog}: one shared source returned from
+               callbacks of two successive pipelines and read directly afterwards
   res  = ("val", z) | ("unit",) | ("err", c) | ("exc", x)   pb = ("set", late, res) | ("throw", x)
   w in F O T S SO; tv: 0 = int, 1 = void.
 """
@@ -28,7 +31,7 @@ def wire_res(r):
 
 def wire_fn(f):
     b = f["beh"]
-    bs = "(async %s)" % wire(b[1]) if b[0] == "async" else "(%s %d)" % (b[0], b[1])
+    bs = "(async %s)" % wire(b[1]) if b[0] == "async" else "(shared)" if b[0] == "shared" else "(%s %d)" % (b[0], b[1])
     return "(fn %d %s %s %s)" % (f["id"], f["par"], f["ret"], bs)
 
 
@@ -94,6 +97,8 @@ def g_body(f):
         return "(hb (BResErr %s))" % gz(b[1])
     if b[0] == "resexc":
         return "(hb (BResExc %s))" % gz(b[1])
+    if b[0] == "shared":
+        return "(hb (BAsync KShared h))"      # h: the bound variable of obs_share's pipeline functions
     return "(hb (BAsync %s %s))" % (G_AK[T.ret_akind(f["ret"])], gallina(b[1]))
 
 
@@ -125,6 +130,22 @@ def gallina(p):
             t = "(POnNull %s)" % t
     return t
 
+def wire_share(c):
+    return "(share %d %s %s %s)" % (c["extra"], wire(c["src"]), wire(c["p1"]), wire(c["p2"]))
+
+
+def gallina_share(c):
+    return "obs_share %s (fun h => %s) (fun h => %s)" % (gallina(c["src"]), gallina(c["p1"]), gallina(c["p2"]))
+
+
+def number_share(c):
+    """ids: source first, then the 1st pipeline, then the 2nd"""
+    c = clone(c)
+    nxt = 1
+    for k in ("src", "p1", "p2"):
+        nxt = number_next(c[k], nxt)
+    return c
+
 # ------------------------------------------------------------------------------------------------ typing helpers
 
 def src_world(s):
@@ -148,8 +169,9 @@ def world(p):
     return (wk, tv)
 
 
-def number(p, start=1):
-    """assign function ids in pre-order (source, then steps; inner programs right after their function)"""
+def number_next(p, start=1):
+    """assign function ids in pre-order (source, then steps; inner programs right after their function); returns the
+    next free id"""
     n = [start]
 
     def fn(f):
@@ -172,6 +194,11 @@ def number(p, start=1):
             if o[0] == "then":
                 fn(o[2])
     prog(p)
+    return n[0]
+
+
+def number(p, start=1):
+    number_next(p, start)
     return p
 
 
@@ -198,6 +225,28 @@ def fns(p, top_only=False):
             out.append(o[2])
             if not top_only and o[2]["beh"][0] == "async":
                 out += fns(o[2]["beh"][1])
+    return out
+
+
+def all_ids(p):
+    """every function id of the program: source function / contract function / coroutine, steps, inner programs"""
+    s = p["src"]
+    out = []
+    inner = []
+    if s[0] == "run":
+        out.append(s[3]["id"])
+        inner.append(s[3])
+    elif s[0] == "prom":
+        out.append(s[4])
+    elif s[0] == "coro":
+        out.append(s[3])
+    for o in p["ops"]:
+        if o[0] == "then":
+            out.append(o[2]["id"])
+            inner.append(o[2])
+    for f in inner:
+        if f["beh"][0] == "async":
+            out += all_ids(f["beh"][1])
     return out
 
 
@@ -522,6 +571,115 @@ def random_program(rng, min_len=4, max_len=8, depth=0):
     if depth > 0:
         return p
     return finish(p)
+
+# ------------------------------------------------------------------------------------------------ one shared source, several users
+
+def share_sources(tv):
+    """programs that build one SharedFuture of value type tv (fulfilled before or after the users are built)"""
+    st = [res_of(x, tv) for x in STATES]
+    nf = lambda b: mkfn("N", "V" if tv else "I", b)
+    out = [{"src": ("contract", "S", tv, "i", late, r), "ops": []} for late in (0, 1) for r in st]
+    out += [{"src": ("run", "S", "i", nf(("ret", 2))), "ops": []},
+            {"src": ("run", "SO", "m1", nf(("ret", 2))), "ops": []},
+            {"src": ("run", "SO", "m1", nf(("throw", 3))), "ops": []},
+            {"src": ("run", "SO", "s", nf(("ret", 2))), "ops": []},
+            {"src": ("run", "S", "i", mkfn("R", "RV" if tv else "RI", ("reserr", 4))), "ops": []},
+            {"src": ("prom", "S", tv, "i", 0, ("set", 0, st[0])), "ops": []},
+            {"src": ("prom", "S", tv, "i", 0, ("set", 1, st[0])), "ops": []},
+            {"src": ("prom", "SO", tv, "m0", 0, ("set", 0, st[1])), "ops": []},
+            {"src": ("prom", "S", tv, "i", 0, ("throw", 5)), "ops": []}]
+    return out
+
+
+def share_users(tv):
+    """pipelines whose callbacks return the shared handle (value type tv): after a value, on a manual executor, as the
+    head of Run, from both kinds of recovery callback, lazily, twice in one pipeline, with a consumer behind; and a control"""
+    S = "SV" if tv else "SI"
+    sh = lambda par: mkfn(par, S, ("shared",))
+    vi = ("ready", "F", 0, ("val", 1))
+    back = ("then", "inline", mkfn("N" if tv else "V", "I", ("ret", 3)))   # a consumer of the flattened value
+    return [
+        {"src": vi, "ops": [("then", "inline", sh("V"))]},
+        {"src": vi, "ops": [("then", ("on", "m0"), sh("R"))]},
+        {"src": ("run", "O", "m1", sh("N")), "ops": []},
+        {"src": ("ready", "F", tv, res_of("err", tv)), "ops": [("then", "inline", sh("E"))]},
+        {"src": ("ready", "F", tv, res_of("exc", tv)), "ops": [("then", "inline", sh("X"))]},
+        {"src": ("ready", "T", 1, ("unit",)), "ops": [("then", "inline", sh("N")), ("tofuture",)]},
+        {"src": ("contract", "O", 1, "m0", 1, ("unit",)), "ops": [("then", "inherit", sh("U")), ("then", "inline", mkfn("R", "I", ("ret", 5)))]},
+        {"src": vi, "ops": [("then", "inline", sh("V")), back, ("then", "inline", mkfn("A", "V", ("ret", 0)))]},
+        {"src": vi, "ops": [("then", "inline", sh("A")), ("then", "inline", sh("N" if tv else "V"))]},
+        {"src": vi, "ops": [("then", "inline", mkfn("V", "I", ("ret", 5)))]},
+    ]
+
+
+def share_cases(rng, tier):
+    out = []
+    for tv in (0, 1):
+        users = share_users(tv)
+        for src in share_sources(tv):
+            extras = [0, 1, 2] if (src["src"][0] == "contract" or tier == "thorough") else [0]
+            for ex in extras:
+                for u1 in users:
+                    for u2 in users:
+                        out.append({"extra": ex, "src": src, "p1": u1, "p2": u2})
+    # sampled: random pipelines in which the SharedFuture-returning callbacks return the shared handle
+    for _ in range(8000 if tier == "thorough" else 1500):
+        tv = rng.randrange(2)
+        S = "SV" if tv else "SI"
+        ps = []
+        for _k in range(2):
+            p = random_program(rng, 1, 4)
+            used = False
+            for f in fns(p, top_only=True):
+                if f["ret"] == S and f["beh"][0] == "async" and rng.random() < 0.8:
+                    f["beh"] = ("shared",)
+                    used = True
+            if not used:
+                wk, t = world(p)
+                pars = [x for x in T.PAR_OF_TY[t] if T.step_ok(t, x, S)]
+                p["ops"].append(("then", rng.choice(attaches(wk, True)), mkfn(rng.choice(pars), S, ("shared",))))
+                if rng.random() < 0.5:
+                    p["ops"].append(("then", "inline", mkfn("R", "I", ("ret", rng.randrange(10)))))
+            ps.append(p)
+        out.append({"extra": rng.choice([0, 0, 0, 1, 2]), "src": clone(rng.choice(share_sources(tv))), "p1": ps[0], "p2": ps[1]})
+    return [number_share(c) for c in out]
+
+
+def coq_share(cases_gallina, name, per_file=400, timeout=1500):
+    """evaluate obs_share for every case; returns a list of [seg_src, seg_p1, seg_p2] (each an obs_z list) or None"""
+    hdr = ("From Coq Require Import List ZArith. Import ListNotations.\nFrom YV Require Import model.Pipe model.PipeObs.\n"
+           "Local Open Scope Z_scope.\nSet Printing Depth 10000000.\nSet Printing Width 1000000.\n")
+    n = len(cases_gallina)
+    files = [(k, cases_gallina[k:k + per_file]) for k in range(0, n, per_file)]
+
+    def one(job):
+        k, terms = job
+        nm = "%s_%d_%d" % (name, os.getpid(), k)
+        ok, out = vlib.coqc_eval(hdr + "\n".join("Eval vm_compute in (%s)." % t for t in terms) + "\n", nm, timeout=timeout)
+        try:
+            os.remove(os.path.join(vlib.COQ, "cases", nm + ".v"))
+        except OSError:
+            pass
+        res = []
+        for m in re.finditer(r"=\s*(\[[^\]]*\]|nil)\s*:\s*list Z", out.replace("\n", " ")):
+            nums = [int(x) for x in re.findall(r"-?\d+", m.group(1))]
+            segs, i = [], 0
+            while i < len(nums):
+                segs.append(nums[i + 1:i + 1 + nums[i]])
+                i += 1 + nums[i]
+            res.append(segs if len(segs) == 3 else None)
+        if not ok or len(res) != len(terms):
+            return k, [None] * len(terms), out[-3000:]
+        return k, res, ""
+
+    results, logs = [None] * n, []
+    with concurrent.futures.ThreadPoolExecutor(max_workers=vlib.NPROC) as ex:
+        for k, res, log in ex.map(one, files):
+            results[k:k + len(res)] = res
+            if log:
+                logs.append(log)
+    return results, logs
+
 
 # ------------------------------------------------------------------------------------------------ build
 
